@@ -316,11 +316,37 @@ def is_compound(e) -> bool:
     return unparen(e)[0] not in ('num', 'bool', 'str', 'fstr', 'id', 'arr', 'dict', 'call')
 
 
+def paren_label(parent, slot: str, index: int, child) -> str:
+    """Name of the defect class "the parentheses around `child` (operand `index` of `parent`) were dropped".
+    Operators other than arithmetic: the class is the parent kind (their operands are never parenthesised).
+    Arithmetic: the class is (parent operator, side, child operator) - the printer decides per operator pair."""
+    if parent[0] == 'bin':
+        c = unparen(child)
+        cop = c[1] if c[0] == 'bin' else c[0]
+        return 'lost-parens-under-arith:%s%s:%s' % (parent[1], 'L' if index == 0 else 'R', cop)
+    return 'lost-parens-under-' + kind_name(parent, slot)
+
+
 def _paren_child_label(e) -> T.Optional[str]:
-    for slot, ch in children(e):
-        if ch[0] == 'paren' and is_compound(ch):
-            return 'lost-parens-under-' + kind_name(e, slot)
-    return None
+    """Label of a parenthesised compound operand of e, preferring one whose parentheses the reference grammar
+    needs (removing that pair alone changes or breaks the reading of e)."""
+    first = None
+    ch = children(e)
+    for i, (slot, c) in enumerate(ch):
+        if c[0] == 'paren' and is_compound(c):
+            lab = paren_label(e, slot, i, c)
+            if first is None:
+                first = lab
+            kids = [x for _, x in ch]
+            kids[i] = c[1]
+            try:
+                if strip_parens(parse_expr(unparse(with_children(e, kids)))) != strip_parens(e):
+                    return lab
+            except SyntaxFail:
+                return lab
+            except Unspecified:
+                pass
+    return first
 
 
 def string_features(e) -> T.List[str]:
@@ -347,18 +373,28 @@ def string_features(e) -> T.List[str]:
 def culprit(o, n) -> T.Optional[str]:
     """Names the construct of the ORIGINAL expression o at which the re-printed expression n (both reflang trees)
     stops meaning the same: 'lost-parens-under-<kind>', 'string-<features>' or None (no explanation found)."""
+    r = _culprit(o, n)
+    if r is None:
+        syn, sem = necessary_parens(o)
+        labs = sorted(set(syn + sem))
+        if labs:
+            return '+'.join(labs)
+    return r
+
+
+def _culprit(o, n) -> T.Optional[str]:
     o1, n1 = unparen(o), unparen(n)
     if o1[0] in ('str', 'fstr') and n1[0] in ('str', 'fstr') and (o1[0], o1[1]) != (n1[0], n1[1]):
         return 'string-' + ('+'.join(string_features(o1)) or 'plain')
     if shape(o1) == shape(n1):
-        for (slot, co), (_, cn) in zip(children(o1), children(n1)):
+        for i, ((slot, co), (_, cn)) in enumerate(zip(children(o1), children(n1))):
             if strip_parens(co) == strip_parens(cn):
                 continue
-            r = culprit(co, cn)
+            r = _culprit(co, cn)
             if r is not None:
                 return r
             if co[0] == 'paren' and is_compound(co):
-                return 'lost-parens-under-' + kind_name(o1, slot)
+                return paren_label(o1, slot, i, co)
             return _paren_child_label(o1)
         return None
     return _paren_child_label(o1)
@@ -379,9 +415,9 @@ def necessary_parens(e) -> T.Tuple[T.List[str], T.List[str]]:
         ch[path[0]] = rebuild(ch[path[0]], path[1:], repl)
         return with_children(node, ch)
 
-    def walk(node, path, parent, slot):
+    def walk(node, path, parent, slot, idx):
         if node[0] == 'paren' and is_compound(node) and parent is not None:
-            label = 'lost-parens-under-' + kind_name(parent, slot)
+            label = paren_label(parent, slot, idx, node)
             new = rebuild(e, path, node[1])
             try:
                 t = parse_expr(unparse(new))
@@ -392,8 +428,11 @@ def necessary_parens(e) -> T.Tuple[T.List[str], T.List[str]]:
             except Unspecified:
                 pass
         for i, (s, ch) in enumerate(children(node)):
-            walk(ch, path + [i], node if node[0] != 'paren' else parent, s if node[0] != 'paren' else slot)
-    walk(e, [], None, '')
+            if node[0] != 'paren':
+                walk(ch, path + [i], node, s, i)
+            else:
+                walk(ch, path + [i], parent, slot, idx)
+    walk(e, [], None, '', 0)
     return sorted(set(syn)), sorted(set(sem))
 
 
@@ -440,13 +479,28 @@ def evalm(e, env):
         v = ev.ev(e)
         if v is None:
             return FAILM
-        return canon(v)
+        return shallow(canon(v))
     except Fail:
         return FAILM
     except Unspecified:
         return UNSPECM
     except RecursionError:
         return UNSPECM
+
+
+def shallow(c):
+    """Objects made by calls outside the core language are identified by (function, first argument) only - the
+    record of a target must not change because a dependency() it refers to got another keyword.  files() keeps
+    its arguments (they are sources)."""
+    if c[0] == 'l':
+        return ('l', tuple(shallow(x) for x in c[1]))
+    if c[0] == 'd':
+        return ('d', tuple((k, shallow(v)) for k, v in c[1]))
+    if c[0] == 'o':
+        if c[1] == 'files':
+            return ('o', c[1], tuple(shallow(x) for x in c[2]), ())
+        return ('o', c[1], tuple(shallow(x) for x in c[2][:1]), ())
+    return c
 
 
 def _flat_canon(c) -> T.List[tuple]:
@@ -473,6 +527,21 @@ def items(e, env) -> T.List[tuple]:
     return _flat_canon(c)
 
 
+def literal_items(e) -> T.List[tuple]:
+    """Source strings written literally in the expression itself (array elements, files() arguments, `+` chains),
+    i.e. not reached through an identifier."""
+    e = unparen(e)
+    if e[0] == 'str':
+        return [('s', e[1])]
+    if e[0] == 'arr':
+        return [y for x in e[1] for y in literal_items(x)]
+    if e[0] == 'call' and e[1] == 'files' and not e[3]:
+        return [y for x in e[2] for y in literal_items(x)]
+    if e[0] == 'bin' and e[1] == '+':
+        return literal_items(e[2]) + literal_items(e[3])
+    return []
+
+
 def _has_list_literal(e) -> bool:
     e = unparen(e)
     return e[0] == 'arr' or (e[0] == 'call' and e[1] == 'files') or \
@@ -494,11 +563,12 @@ def call_record(e, env) -> T.Dict[str, T.Any]:
     e = unparen(e)
     assert e[0] == 'call'
     pos = [evalm(a, env) for a in e[2]]
-    rec: T.Dict[str, T.Any] = {'fname': e[1], 'pos': pos, 'kw': [], 'src': None, 'items_kw': {}}
+    rec: T.Dict[str, T.Any] = {'fname': e[1], 'pos': pos, 'kw': [], 'src': None, 'items_kw': {}, 'lit': []}
     if e[1] in TARGET_FUNCS:
         src: T.List[tuple] = []
         for a in e[2][1:]:
             src += items(a, env)
+            rec['lit'] += literal_items(a)
         rec['src'] = src
     for k, v in e[3]:
         if k in ITEM_KW and e[1] in TARGET_FUNCS:
@@ -506,6 +576,7 @@ def call_record(e, env) -> T.Dict[str, T.Any]:
             rec['items_kw'][k] = it
             if k == 'sources':
                 rec['src'] = rec['src'] + it
+                rec['lit'] += literal_items(v)
             rec['kw'].append((k, ('items',)))
         else:
             rec['kw'].append((k, evalm(v, env)))
